@@ -1043,7 +1043,9 @@ func (agg *aggregate) Process(ctx context.Context, man gdbi.Manager, in gdbi.InP
 					if val != nil {
 						fval, err := cast.ToFloat64E(val)
 						if err != nil {
+							//not a number: it belongs to no bucket
 							outErr = fmt.Errorf("histogram aggregation: can't convert %v to float64", val)
+							continue
 						}
 						fieldValues = append(fieldValues, fval)
 						if c > maxValues {
@@ -1051,6 +1053,12 @@ func (agg *aggregate) Process(ctx context.Context, man gdbi.Manager, in gdbi.InP
 						}
 						c++
 					}
+				}
+				if len(fieldValues) == 0 {
+					return outErr
+				}
+				if i <= 0 {
+					return fmt.Errorf("histogram aggregation: interval must be positive")
 				}
 				sort.Float64s(fieldValues)
 				min := fieldValues[0]
@@ -1081,7 +1089,9 @@ func (agg *aggregate) Process(ctx context.Context, man gdbi.Manager, in gdbi.InP
 					val := jsonpath.TravelerPathLookup(t, pagg.Field)
 					fval, err := cast.ToFloat64E(val)
 					if err != nil {
+						//missing or not a number: it is not part of the distribution
 						outErr = fmt.Errorf("percentile aggregation: can't convert %v to float64", val)
+						continue
 					}
 					td.Add(fval, 1)
 				}
